@@ -21,12 +21,16 @@ static void fvm_log(int i, int rule, const char *t, int n) {
     if (!n) *p++ = '-';
     *p++ = '\n'; fvm_outlen[i] = (size_t) (p - fvm_out[i]);
 }
+static yyscan_t fvm_keep;
 static yyscan_t fvm_sc[FVM_MAX]; static yybuffer fvm_b[FVM_MAX]; static int fvm_done[FVM_MAX];
 static int fvm_step(int i) {
     int r;
     if (fvm_done[i]) return 0;
     r = yylex(fvm_sc[i]);
-    if (r == 0) { fvm_done[i] = 1; fvm_log(i, 0, "", 0); return 0; }
+    if (r == 0) {
+        /* an instance that has reached the end of its input is destroyed at once: the others go on */
+        fvm_done[i] = 1; fvm_log(i, 0, "", 0); yylex_destroy(fvm_sc[i]); fvm_sc[i] = NULL; return 0;
+    }
     fvm_log(i, r, yyget_text(fvm_sc[i]), (int) yyget_leng(fvm_sc[i]));
     return r;
 }
@@ -37,6 +41,14 @@ int main(int argc, char **argv) {
     if (argc < 3 || !(f = fopen(argv[2], "r"))) return 4;
     if (getline(&line, &cap, f) <= 0) return 4;
     fvm_k = atoi(line);
+#ifdef FVM_TABLES
+    /* %option tables-file: the tables are loaded once, before any instance scans, and freed once, at the very end */
+    {
+        FILE *tf = fopen(FVM_TABLES, "rb");
+        if (!tf || yylex_init(&fvm_keep) || yytables_fload(tf, fvm_keep)) return 6;
+        fclose(tf);
+    }
+#endif
     for (i = 0; i < fvm_k; i++) {
         ssize_t n = getline(&line, &cap, f); int j, m = 0;
         fvm_in[i] = (unsigned char *) malloc((size_t) n + 2);
@@ -57,6 +69,9 @@ int main(int argc, char **argv) {
             for (tok = strtok(line, " \n"); tok; tok = strtok(NULL, " \n")) fvm_step(atoi(tok) % fvm_k);
         for (i = 0; i < fvm_k; i++) while (fvm_step(i)) {}
     }
-    for (i = 0; i < fvm_k; i++) { if (fvm_out[i]) fwrite(fvm_out[i], 1, fvm_outlen[i], stdout); yylex_destroy(fvm_sc[i]); }
+    for (i = 0; i < fvm_k; i++) { if (fvm_out[i]) fwrite(fvm_out[i], 1, fvm_outlen[i], stdout); if (fvm_sc[i]) yylex_destroy(fvm_sc[i]); }
+#ifdef FVM_TABLES
+    yytables_destroy(fvm_keep); yylex_destroy(fvm_keep);
+#endif
     return 0;
 }
